@@ -180,6 +180,67 @@ theorem C12_resolve_ambiguous (T : Table) (clean : Bool) (r : Ref) (n : String) 
     Bool.false_eq_true, if_false]
   exact ⟨_, _, _, rfl⟩
 
+/-! ## A whole pass -/
+
+theorem resolveRefs_errs_prefix (T : Table) (refs : List Ref) (errs : List Err) :
+    ∃ more, (resolveRefs T refs errs).2 = errs ++ more := by
+  induction refs generalizing errs with
+  | nil => exact ⟨[], by simp [resolveRefs]⟩
+  | cons r rs ih =>
+    obtain ⟨more, hm⟩ := ih (errs ++ (resolveRef T errs.isEmpty r).2)
+    exact ⟨(resolveRef T errs.isEmpty r).2 ++ more, by simp [resolveRefs, hm]⟩
+
+theorem resolveRef_clean_ok (T : Table) (r : Ref) (hne : r.names ≠ []) (x : Option Path)
+    (h : resolveRef T true r = (x, [])) : ∃ d, x = some d := by
+  unfold resolveRef at h
+  cases hnames : r.names with
+  | nil => exact absurd hnames hne
+  | cons nl rest =>
+    obtain ⟨n, l⟩ := nl
+    rw [hnames] at h
+    simp only at h
+    split at h
+    · simp at h
+    · split at h
+      · split at h
+        · simp only [Prod.mk.injEq] at h
+          exact ⟨_, h.1.symm⟩
+        · simp at h
+        · simp at h
+      · rename_i hc
+        simp only [Bool.true_and, Bool.not_eq_true, List.isEmpty_eq_false_iff] at hc
+        simp only [Prod.mk.injEq] at h
+        exact absurd h.2 hc
+
+/-- If a pass over the references of a module records no error, then **every** reference was
+bound, and bound to exactly what the scoping rules designate (accepted ⇒ all resolved).
+`hne`: references have at least one name component (the parser never builds an empty one);
+`hnd`: visible scopes pairwise distinct. -/
+theorem C12_accepted_all_resolved (T : Table) (refs : List Ref) (os : List (Option Path))
+    (hne : ∀ r ∈ refs, r.names ≠ []) (hnd : ∀ r ∈ refs, r.ctx.visible.Nodup)
+    (h : resolveRefs T refs [] = (os, [])) : AllResolved T refs os := by
+  induction refs generalizing os with
+  | nil =>
+    simp only [resolveRefs, Prod.mk.injEq] at h
+    rw [← h.1]
+    exact AllResolved.nil
+  | cons r rs ih =>
+    simp only [resolveRefs, List.isEmpty_nil, List.nil_append, Prod.mk.injEq] at h
+    obtain ⟨h1, h2⟩ := h
+    obtain ⟨more, hm⟩ := resolveRefs_errs_prefix T rs (resolveRef T true r).2
+    rw [h2] at hm
+    have hx : (resolveRef T true r).2 = [] := (List.append_eq_nil_iff.1 hm.symm).1
+    have hpair : resolveRef T true r = ((resolveRef T true r).1, []) := by
+      rw [← hx]
+    obtain ⟨d, hd⟩ := resolveRef_clean_ok T r (hne r (by simp)) _ hpair
+    rw [hd] at hpair
+    have hres := (C12_resolve_iff_unique T r (hnd r (by simp)) d).1 hpair
+    rw [hx] at h2
+    have := ih (resolveRefs T rs []).1 (fun r hr => hne r (List.mem_cons_of_mem _ hr))
+      (fun r hr => hnd r (List.mem_cons_of_mem _ hr)) (Prod.ext rfl h2)
+    rw [← h1, hd, hx]
+    exact AllResolved.cons hres this
+
 /-! ## Duplicate definitions -/
 
 /-- `_construct_symbol_tables` accepts a module set iff no scope is given the same name twice
